@@ -119,6 +119,11 @@ func (r *scanner) rangeWithLimit(ctx context.Context, start []byte, end []byte, 
 	if err != nil {
 		return nil, err
 	}
+	// see scan: the compact revision is checked again after the data has been read
+	err = r.checkCompactRace(ctx, revision, false)
+	if err != nil {
+		return nil, err
+	}
 	return receiver.result, nil
 }
 
@@ -295,6 +300,15 @@ func (r *scanner) scan(ctx context.Context, start []byte, end []byte, revision u
 	for _, e := range errList {
 		if e != nil {
 			return 0, e
+		}
+	}
+
+	// a compaction records its revision before it deletes anything: if the record has passed the read
+	// revision by now, an engine whose iterators do not read at the snapshot named by tso may have
+	// handed out data that the compaction was already removing
+	if !compact {
+		if err := r.checkCompactRace(ctx, revision, false); err != nil {
+			return 0, err
 		}
 	}
 
